@@ -229,6 +229,9 @@ ROUND2 = {
            "final_iteration_retained: the last iteration of the most recent call is the newest step.",
     "C13": " combos_perm_splits / mirjalili_dist: the Mirjalili event space's filtered product is exactly the multinomial support, so every (weekday, order) row sums to one for all sizes; "
            "hendrix_row_sum: exact mass of every Hendrix row (the recorded truncation finding in closed form).",
+    "C14": " mirjalili_events_nodup_size: the Mirjalili event space has no duplicate rows and (max_demand+1) events per received-order combination.",
+    "C20": " decimalPlaces_valid / decimalPlaces_shows_threshold: the progress-format precision max(0, min(1 - floor(log10 thr), max_decimals)) is a valid precision for every "
+           "positive threshold of any magnitude; the implementation's format string of every constructed solver is compared with it (floor taken exactly).",
     "C16": " hendrix_cell_is_joint_law: the four masked arrays built from the pu/pz convolution tables equal the enumeration over d_A, d_B and the binomial substitution demand "
            "inside the truncation region, for all table sizes, stocks and cells; the model row (from the primitive Poisson tables) is compared with the real table.",
 }
